@@ -325,6 +325,9 @@ type StackConfig struct {
 	Fetcher        *DirectoryFetcher
 	ForceTrees     bool
 	WorkerName     string
+	// Virtual selects the virtual build directory branch of main.go
+	// (InMemoryPrepopulatedDirectory) instead of the native one.
+	Virtual bool
 }
 
 // Stack is the executor pipeline of cmd/bb_worker/main.go over a naive
@@ -334,6 +337,7 @@ type Stack struct {
 	Tap      *ResponseTap
 	Writer   *WriterTap
 	Handles  *HandleStats
+	Virtual  *VirtualRoot // nil for the native branch
 	root     filesystem.DirectoryCloser
 
 	mu      sync.Mutex
@@ -348,7 +352,20 @@ func (s *Stack) Flushes() []FlushRecord {
 }
 
 // Close releases the build root handle.
-func (s *Stack) Close() { s.root.Close() }
+func (s *Stack) Close() {
+	if s.root != nil {
+		s.root.Close()
+	}
+}
+
+// FilePool returns the file pool to pass to Execute (nil for the native
+// branch, which ignores it).
+func (s *Stack) FilePool() pool.FilePool {
+	if s.Virtual != nil {
+		return s.Virtual.FilePool
+	}
+	return nil
+}
 
 // NewStack composes
 //
@@ -358,12 +375,7 @@ func (s *Stack) Close() { s.root.Close() }
 // executor and the naive directory write through NewBatchedStoreBlobAccess,
 // the caching executor writes to the global CAS and the AC directly.
 func NewStack(cfg StackConfig) (*Stack, error) {
-	local, err := filesystem.NewLocalDirectory(path.LocalFormat.NewParser(cfg.BuildRoot))
-	if err != nil {
-		return nil, fmt.Errorf("open build root: %w", err)
-	}
-	s := &Stack{Handles: NewHandleStats(), root: local}
-	counting := NewCountingDirectory(local, s.Handles)
+	s := &Stack{Handles: NewHandleStats()}
 
 	batched, realFlush := re_blobstore.NewBatchedStoreBlobAccess(cfg.CAS, digest.KeyWithoutInstance, cfg.BatchSize, semaphore.NewWeighted(cfg.PutConcurrency))
 	s.Writer = &WriterTap{BlobAccess: batched}
@@ -379,12 +391,27 @@ func NewStack(cfg StackConfig) (*Stack, error) {
 		return rec.Err
 	}
 
-	buildDirectory := builder.NewNaiveBuildDirectory(counting, cfg.Fetcher, FileFetcher{CAS: cfg.CAS}, semaphore.NewWeighted(1), s.Writer)
+	var buildDirectory builder.BuildDirectory
+	var buildDirectoryCleaner cleaner.Cleaner
+	if cfg.Virtual {
+		s.Virtual = NewVirtualRoot(cfg.Fetcher, s.Writer, cfg.Clock, false)
+		buildDirectory = s.Virtual.BuildDirectory
+		root := s.Virtual.Root
+		buildDirectoryCleaner = func(ctx context.Context) error { return root.RemoveAllChildren(false) }
+	} else {
+		local, err := filesystem.NewLocalDirectory(path.LocalFormat.NewParser(cfg.BuildRoot))
+		if err != nil {
+			return nil, fmt.Errorf("open build root: %w", err)
+		}
+		s.root = local
+		buildDirectory = builder.NewNaiveBuildDirectory(NewCountingDirectory(local, s.Handles), cfg.Fetcher, FileFetcher{CAS: cfg.CAS}, semaphore.NewWeighted(1), s.Writer)
+		buildDirectoryCleaner = cleaner.NewDirectoryCleaner(local, cfg.BuildRoot)
+	}
 	var nextParallelActionID atomic.Uint64
 	creator := builder.NewSharedBuildDirectoryCreator(
 		builder.NewCleanBuildDirectoryCreator(
 			builder.NewRootBuildDirectoryCreator(buildDirectory),
-			cleaner.NewIdleInvoker(cleaner.NewDirectoryCleaner(local, cfg.BuildRoot)),
+			cleaner.NewIdleInvoker(buildDirectoryCleaner),
 		),
 		&nextParallelActionID,
 	)
